@@ -220,6 +220,90 @@ theorem enqueueAll_weak {s : Pool} {a : Addr} {us : List Tx} (h : WeakAll s) (ho
     rw [h1.pending] at hp
     exact hfree u (List.mem_cons_of_mem _ hu) p hp
 
+theorem mem_insertAll {t u : Tx} {l : List Tx} : u ∈ insertAll t l ↔ u = t ∨ u ∈ l := by
+  unfold insertAll; split
+  · rename_i h; constructor
+    · exact Or.inr
+    · rintro (rfl | h')
+      · exact h
+      · exact h'
+  · simp
+
+theorem mem_delAll {t u : Tx} {l : List Tx} : u ∈ delAll t l ↔ u ∈ l ∧ u ≠ t := by
+  unfold delAll; simp [List.mem_filter]
+
+/-! ### enqueueTx into a slot that is free in both lists -/
+
+theorem enqueueTx_free {s : Pool} {t : Tx} (hq : Sorted (s.queue t.sender).items)
+    (hfreeQ : ∀ q ∈ (s.queue t.sender).items, q.nonce ≠ t.nonce) :
+    (∀ u, u ∈ ((s.enqueueTx t).2.2.queue t.sender).items ↔ u = t ∨ u ∈ (s.queue t.sender).items) ∧
+    (∀ u, u ∈ (s.enqueueTx t).2.2.all ↔ u = t ∨ u ∈ s.all) := by
+  have hnone : getN (s.queue t.sender).items t.nonce = none := getN_none.mpr hfreeQ
+  unfold Pool.enqueueTx
+  simp only [TxL.add, hnone, Bool.not_true, Bool.false_eq_true, if_false, upd_same]
+  refine ⟨fun u => ?_, fun u => mem_insertAll⟩
+  simp only [TxL.putTx]
+  rw [mem_put hq]
+  constructor
+  · rintro (h | ⟨h, _⟩)
+    · exact Or.inl h
+    · exact Or.inr h
+  · rintro (h | h)
+    · exact Or.inl h
+    · exact Or.inr ⟨h, hfreeQ u h⟩
+
+theorem enqueueAll_exact {s : Pool} {a : Addr} {us : List Tx} (hq : Sorted (s.queue a).items) (hus : Sorted us)
+    (hown : ∀ u ∈ us, u.sender = a)
+    (hfreeQ : ∀ u ∈ us, ∀ q ∈ (s.queue a).items, q.nonce ≠ u.nonce) :
+    (∀ x, x ∈ ((enqueueAll s us).queue a).items ↔ x ∈ us ∨ x ∈ (s.queue a).items) ∧
+    (∀ x, x ∈ (enqueueAll s us).all ↔ x ∈ us ∨ x ∈ s.all) := by
+  induction us generalizing s with
+  | nil => simp [enqueueAll]
+  | cons y ys ih =>
+    have hy : y.sender = a := hown y List.mem_cons_self
+    have hsy := sorted_cons.mp hus
+    have h1 := enqueueTx_free (s := s) (t := y) (by rw [hy]; exact hq) (by rw [hy]; exact hfreeQ y List.mem_cons_self)
+    rw [hy] at h1
+    have hq1 : Sorted ((s.enqueueTx y).2.2.queue a).items := by
+      have := enqueueTx_facts s y
+      unfold Pool.enqueueTx
+      simp only
+      split
+      · exact hq
+      · simp only [← hy, upd_same]
+        have hs : Sorted (s.queue y.sender).items := by rw [hy]; exact hq
+        rename_i hins
+        have hins' : ((s.queue y.sender).add y s.cfg.priceBump).1 = true := by simpa using hins
+        exact ((TxL.add_spec _ _ _ hs).1 hins').2.1
+    have := ih (s := (s.enqueueTx y).2.2) hq1 hsy.2 (fun u hu => hown u (List.mem_cons_of_mem _ hu))
+      (fun u hu q hq' => by
+        rcases (h1.1 q).mp hq' with rfl | hq''
+        · have := hsy.1 u hu; omega
+        · exact hfreeQ u (List.mem_cons_of_mem _ hu) q hq'')
+    simp only [enqueueAll, List.foldl_cons] at this ⊢
+    refine ⟨fun x => ?_, fun x => ?_⟩
+    · rw [this.1 x, h1.1 x]; simp only [List.mem_cons]
+      constructor
+      · rintro (h | h | h)
+        · exact Or.inl (Or.inr h)
+        · exact Or.inl (Or.inl h)
+        · exact Or.inr h
+      · rintro ((h | h) | h)
+        · exact Or.inr (Or.inl h)
+        · exact Or.inl h
+        · exact Or.inr (Or.inr h)
+    · rw [this.2 x, h1.2 x]; simp only [List.mem_cons]
+      constructor
+      · rintro (h | h | h)
+        · exact Or.inl (Or.inr h)
+        · exact Or.inl (Or.inl h)
+        · exact Or.inr h
+      · rintro ((h | h) | h)
+        · exact Or.inr (Or.inl h)
+        · exact Or.inl h
+        · exact Or.inr (Or.inr h)
+
+
 /-! ## promoteTx -/
 
 def promoteAll (s : Pool) (a : Addr) (ts : List Tx) : Pool := ts.foldl (fun s t => s.promoteTx a t) s
@@ -493,21 +577,27 @@ theorem WeakAll.congr {s s' : Pool} (h : WeakAll s) (hp : s'.pending = s.pending
     nothing; or the pending entry at the nonce and everything above it leaves the pending list (the followers are
     re-queued) and the virtual nonce is lowered; or the queue entry at the nonce is removed. -/
 inductive RemCase (s : Pool) (t : Tx) (s' : Pool) : Prop
-  | noop (h : s' = s)
-  | pend (hfound : (getN (s.pending t.sender).items t.nonce).isSome)
+  | noop (h : s' = s) (hnin : t ∉ s.all)
+  | pend (hin : t ∈ s.all) (hfound : (getN (s.pending t.sender).items t.nonce).isSome)
          (hitems : (s'.pending t.sender).items = (s.pending t.sender).items.filter (fun u => decide (u.nonce < t.nonce)))
          (hpn : s'.pnonce t.sender = if t.nonce < s.pnonce t.sender then t.nonce else s.pnonce t.sender)
          (hq : ∀ u ∈ (s'.queue t.sender).items, u ∈ (s.queue t.sender).items ∨
                  (u ∈ (s.pending t.sender).items ∧ t.nonce < u.nonce))
-  | queue (hp : s'.pending t.sender = s.pending t.sender) (hpn : s'.pnonce t.sender = s.pnonce t.sender)
+         (hqx : ∀ u, u ∈ (s'.queue t.sender).items ↔ u ∈ (s.queue t.sender).items ∨
+                 (u ∈ (s.pending t.sender).items ∧ t.nonce < u.nonce))
+         (hall : ∀ u, u ∈ s'.all ↔ (u ∈ s.all ∧ u ≠ t) ∨ (u ∈ (s.pending t.sender).items ∧ t.nonce < u.nonce))
+  | queue (hin : t ∈ s.all) (hp : s'.pending t.sender = s.pending t.sender) (hpn : s'.pnonce t.sender = s.pnonce t.sender)
           (hq : ∀ u ∈ (s'.queue t.sender).items, u ∈ (s.queue t.sender).items ∧ u.nonce ≠ t.nonce)
           (hnone : getN (s.pending t.sender).items t.nonce = none)
+          (hqx : ∀ u, u ∈ (s'.queue t.sender).items ↔ u ∈ (s.queue t.sender).items ∧ u.nonce ≠ t.nonce)
+          (hall : ∀ u, u ∈ s'.all ↔ u ∈ s.all ∧ u ≠ t)
+          (hqitems : (s'.queue t.sender).items = (s.queue t.sender).items.filter (fun u => !decide (u.nonce = t.nonce)))
 
 theorem removeTx_spec (s : Pool) (t : Tx) (hw : WeakAll s) :
     Touch s t.sender (s.removeTx t) ∧ WeakAll (s.removeTx t) ∧ RemCase s t (s.removeTx t) := by
   unfold Pool.removeTx Pool.removeTxG
   by_cases hall : t ∉ s.all
-  · rw [if_pos hall]; exact ⟨Touch.refl _ _, hw, RemCase.noop rfl⟩
+  · rw [if_pos hall]; exact ⟨Touch.refl _ _, hw, RemCase.noop rfl hall⟩
   · rw [if_neg hall]
     simp only [Bool.true_or, if_true]
     have hwa := hw.1 t.sender
@@ -566,10 +656,45 @@ theorem removeTx_spec (s : Pool) (t : Tx) (hw : WeakAll s) :
            WeakAll (lowerN (enqueueAll s2 ((s.pending t.sender).remove t).2.1) t.sender t.nonce) ∧
            RemCase s t (lowerN (enqueueAll s2 ((s.pending t.sender).remove t).2.1) t.sender t.nonce)
       refine ⟨ht3.trans hl.1, hw3.congr hl.2.1 hl.2.2.1 hl.2.2.2.1, ?_⟩
-      apply RemCase.pend (hrs.found hr1)
+      have hexact := enqueueAll_exact (s := s2) (a := t.sender) (us := ((s.pending t.sender).remove t).2.1)
+        hwa.qsorted (hrs.inv_sorted hwa.psorted) hinvown
+        (fun u hu q hq => by
+          have := hwa.disj u (hrs.inv_sub u hu).1 q hq
+          exact fun e => this e.symm)
+      have hinvx : ∀ u, u ∈ ((s.pending t.sender).remove t).2.1 ↔ (u ∈ (s.pending t.sender).items ∧ t.nonce < u.nonce) := by
+        intro u
+        constructor
+        · exact hrs.inv_sub u
+        · rintro ⟨h1, h2⟩
+          have := hrs.inv_all hwa.pstrict hr1 u h1 h2
+          exact this
+      have hlall : (lowerN (enqueueAll s2 ((s.pending t.sender).remove t).2.1) t.sender t.nonce).all
+          = (enqueueAll s2 ((s.pending t.sender).remove t).2.1).all := by
+        unfold lowerN; split <;> rfl
+      apply RemCase.pend (Decidable.not_not.mp hall) (hrs.found hr1)
       · rw [hl.2.1]; exact hp3
       · rw [hl.2.2.2.2, hn3]
       · rw [hl.2.2.1]; exact hq3
+      · intro u
+        rw [hl.2.2.1, hexact.1 u, hinvx u]
+        constructor
+        · rintro (h | h)
+          · exact Or.inr h
+          · exact Or.inl h
+        · rintro (h | h)
+          · exact Or.inr h
+          · exact Or.inl h
+      · intro u
+        rw [hlall, hexact.2 u, hinvx u]
+        have : u ∈ s2.all ↔ u ∈ s.all ∧ u ≠ t := mem_delAll
+        rw [this]
+        constructor
+        · rintro (h | h)
+          · exact Or.inr h
+          · exact Or.inl h
+        · rintro (h | h)
+          · exact Or.inr h
+          · exact Or.inl h
     | false =>
       simp only [hr1, Bool.false_eq_true, if_false]
       have hqs := TxL.remove_spec (s.queue t.sender) t
@@ -598,20 +723,31 @@ theorem removeTx_spec (s : Pool) (t : Tx) (hw : WeakAll s) :
           | cons y ys =>
             have := (hqs.kept_sub y (by rw [hq]; exact List.mem_cons_self)).1
             rw [(hw.2 t.sender hna).2] at this; cases this
-      · refine RemCase.queue (by rfl) (by rfl) ?_ ?_
+      · refine RemCase.queue (Decidable.not_not.mp hall) (by rfl) (by rfl) ?_ ?_ ?_ ?_ ?_
         · intro u hu
           have : u ∈ (upd s.queue t.sender (dropIfEmpty ((s.queue t.sender).remove t).2.2) t.sender).items := hu
           rw [upd_same, dropIfEmpty_items] at this
           exact hqs.kept_sub u this
         · exact (hrs.notfound hr1).2.2
+        · intro u
+          show u ∈ (upd s.queue t.sender (dropIfEmpty ((s.queue t.sender).remove t).2.2) t.sender).items ↔ _
+          rw [upd_same, dropIfEmpty_items]
+          constructor
+          · exact hqs.kept_sub u
+          · rintro ⟨h1, h2⟩
+            exact hqs.kept_all hwa.qstrict u h1 h2
+        · intro u; exact mem_delAll
+        · show (upd s.queue t.sender (dropIfEmpty ((s.queue t.sender).remove t).2.2) t.sender).items = _
+          rw [upd_same, dropIfEmpty_items]
+          exact hqs.loose_items hwa.qstrict
 
 theorem removeTx_weak {s : Pool} (t : Tx) (h : WeakAll s) : WeakAll (s.removeTx t) := (removeTx_spec s t h).2.1
 
 theorem removeTx_lite {s : Pool} (t : Tx) (hw : WeakAll s) (h : LiteAll s) : LiteAll (s.removeTx t) := by
   obtain ⟨ht, _, hc⟩ := removeTx_spec s t hw
   cases hc with
-  | noop e => rw [e]; exact h
-  | pend hfound hitems hpn hq =>
+  | noop e _ => rw [e]; exact h
+  | pend _ hfound hitems hpn hq _ _ =>
     apply h.touch ht
     rcases h t.sender with hl | ⟨e, he, hen, hpay⟩
     · left; rw [hpn]; split <;> omega
@@ -620,15 +756,15 @@ theorem removeTx_lite {s : Pool} (t : Tx) (hw : WeakAll s) (h : LiteAll s) : Lit
         refine ⟨e, ?_, hen, hpay⟩
         rw [hitems]; exact List.mem_filter.mpr ⟨he, by simp only [decide_eq_true_eq]; omega⟩
       · left; rw [hpn]; split <;> omega
-  | queue hp hpn hq hnone =>
+  | queue _ hp hpn hq hnone _ _ _ =>
     apply h.touch ht
     rw [hp, hpn]; exact h t.sender
 
 theorem removeTx_good {s : Pool} (t : Tx) (h : Good s) : Good (s.removeTx t) := by
   obtain ⟨ht, hw', hc⟩ := removeTx_spec s t h.weakAll
   cases hc with
-  | noop e => rw [e]; exact h
-  | pend hfound hitems hpn hq =>
+  | noop e _ => rw [e]; exact h
+  | pend _ hfound hitems hpn hq _ _ =>
     have hs := h.1 t.sender
     apply h.touch ht _ (hw'.2 t.sender)
     have hmem : ∃ o, getN (s.pending t.sender).items t.nonce = some o := by
@@ -643,7 +779,7 @@ theorem removeTx_good {s : Pool} (t : Tx) (h : Good s) : Good (s.removeTx t) := 
       run := by rw [hitems]; exact hs.run.filter_lt _
       pn_le := by rw [hpn, hitems]; split <;> omega
       afford := fun u hu => by rw [hitems] at hu; exact hs.afford u (List.mem_filter.mp hu).1 }
-  | queue hp hpn hq hnone =>
+  | queue _ hp hpn hq hnone _ _ _ =>
     have hs := h.1 t.sender
     apply h.touch ht _ (hw'.2 t.sender)
     exact { hw'.1 t.sender with
@@ -683,9 +819,10 @@ structure CapFacts (s : Pool) (a : Addr) (s' : Pool) : Prop where
   accts  : s'.accts = s.accts
   strict : (s'.pending a).strict = (s.pending a).strict
   caps   : (s'.pending a).costcap = (s.pending a).costcap ∧ (s'.pending a).gascap = (s.pending a).gascap
-  shape  : ((s.pending a).items = [] ∧ (s'.pending a).items = [] ∧ s'.pnonce a = s.pnonce a) ∨
+  shape  : ((s.pending a).items = [] ∧ (s'.pending a).items = [] ∧ s'.pnonce a = s.pnonce a ∧ (∀ u, u ∈ s'.all ↔ u ∈ s.all)) ∨
            (∃ x, (s.pending a).items.getLast? = some x ∧ (s'.pending a).items ++ [x] = (s.pending a).items ∧
-                 s'.pnonce a = if x.nonce < s.pnonce a then x.nonce else s.pnonce a)
+                 (s'.pnonce a = if x.nonce < s.pnonce a then x.nonce else s.pnonce a) ∧
+                 (∀ u, u ∈ s'.all ↔ u ∈ s.all ∧ u ≠ x))
 
 theorem capOne_facts (s : Pool) (a : Addr) : CapFacts s a (s.capOne a) := by
   unfold Pool.capOne capL
@@ -697,7 +834,7 @@ theorem capOne_facts (s : Pool) (a : Addr) : CapFacts s a (s.capOne a) := by
                        qother := fun _ _ => rfl, nother := fun _ _ => rfl, accts := fun _ h => h }
             queue := rfl, accts := rfl
             strict := by simp only [upd_same], caps := by simp only [upd_same, and_self]
-            shape := Or.inl ⟨he, by simp only [upd_same, he, List.take_nil], rfl⟩ }
+            shape := Or.inl ⟨he, by simp only [upd_same, he, List.take_nil], rfl, fun u => by simp [List.mem_filter]⟩ }
   · rw [hd]
     simp only [List.foldl_cons, List.foldl_nil]
     let s1 : Pool := { s with pending := upd s.pending a { s.pending a with items := (s.pending a).items.take ((s.pending a).items.length - 1) }
@@ -712,7 +849,11 @@ theorem capOne_facts (s : Pool) (a : Addr) : CapFacts s a (s.capOne a) := by
             queue := hl.2.2.1, accts := hl.2.2.2.1
             strict := by rw [hl.2.1, hp1]
             caps := by rw [hl.2.1, hp1]; exact ⟨rfl, rfl⟩
-            shape := Or.inr ⟨x, hx, by rw [hl.2.1, hp1]; exact ht, hl.2.2.2.2⟩ }
+            shape := Or.inr ⟨x, hx, by rw [hl.2.1, hp1]; exact ht, hl.2.2.2.2, fun u => by
+              have : (lowerN s1 a x.nonce).all = s1.all := by unfold lowerN; split <;> rfl
+              rw [this]
+              show u ∈ s.all.filter (fun t => !decide (t ∈ [x])) ↔ _
+              simp [List.mem_filter]⟩ }
 
 theorem capOne_weak {s : Pool} (a : Addr) (h : WeakAll s) : WeakAll (s.capOne a) := by
   have hf := capOne_facts s a
@@ -745,7 +886,7 @@ theorem capOne_weak {s : Pool} (a : Addr) (h : WeakAll s) : WeakAll (s.capOne a)
 theorem capOne_lite {s : Pool} (a : Addr) (h : LiteAll s) : LiteAll (s.capOne a) := by
   have hf := capOne_facts s a
   apply h.touch hf.touch
-  rcases hf.shape with ⟨h1, h2, h3⟩ | ⟨x, hx, h2, h3⟩
+  rcases hf.shape with ⟨h1, h2, h3, _⟩ | ⟨x, hx, h2, h3, _⟩
   · rcases h a with hl | ⟨e, he, _⟩
     · left; rw [h3]; exact hl
     · rw [h1] at he; cases he
@@ -762,7 +903,7 @@ theorem capOne_good {s : Pool} (a : Addr) (h : Good s) : Good (s.capOne a) := by
   have hw' := capOne_weak a h.weakAll
   have hs := h.1 a
   apply h.touch hf.touch _ (hw'.2 a)
-  rcases hf.shape with ⟨h1, h2, h3⟩ | ⟨x, hx, h2, h3⟩
+  rcases hf.shape with ⟨h1, h2, h3, _⟩ | ⟨x, hx, h2, h3, _⟩
   · exact { hw'.1 a with
       run := by rw [h2]; trivial
       pn_le := by have := hs.pn_le; rw [h1] at this; rw [h2, h3]; exact this
